@@ -1157,11 +1157,32 @@ package wire
 // The accept loop and its goroutines: scheduling and goroutine creation are outside the
 // verified subset (DESIGN §6); listed in every evidence file as not verified.
 //@ func (*Server).Serve
-//@   skip creates goroutines (accept loop); scheduling is outside the verified subset
+//@   props C04 C15 C16
+//@   requires [ready] ServerReady(srv) && listener != nil && srv.logger != nil
+//@   requires [no-locks-held] {C16} srv.admission.#rheld == 0 && !srv.admission.#wheld && srv.wg.#held == 0 && srv.wg.#wgcnt >= 0
+//@   modifies srv.wg.#wgcnt, srv.wg.#held
+//@   loop 0
+//@     invariant [ready] ServerReady(srv) && listener != nil && srv.logger != nil
+//@     invariant [registration-handed-over] srv.wg.#held == 0 && srv.wg.#wgcnt >= 0 && srv.admission.#rheld == 0 && !srv.admission.#wheld
+
+// goroutine started by Serve: waits for Close, then closes the listener exactly once and gives
+// back the registration Serve made for it
 //@ func (*Server).Serve$1
-//@   skip goroutine body of the accept loop (waits on a channel)
+//@   props C04 C16
+//@   requires [captured] srv != nil && listener != nil && srv.closer != nil && srv.logger != nil
+//@   requires [registered] {C16} srv.wg.#held >= 1 && srv.wg.#wgcnt >= 1
+//@   spawnset srv.wg.#held = old(srv.wg.#held) - 1
+//@   ensures [listener-closed-once] {C16} #listenerClosed == old(#listenerClosed) + 1
+//@   ensures [registration-returned] {C16} srv.wg.#held == old(srv.wg.#held) - 1
+//@   modifies #listenerClosed, srv.wg.#wgcnt, srv.wg.#held
+
+// goroutine started by Serve for one accepted connection
 //@ func (*Server).Serve$2
-//@   skip goroutine body of the accept loop (runs serve for one connection)
+//@   props C04 C15 C16
+//@   requires [captured] ServerReady(srv) && conn != nil && srv.logger != nil
+//@   requires [no-locks-held] {C16} srv.admission.#rheld == 0 && !srv.admission.#wheld && srv.wg.#held == 0 && srv.wg.#wgcnt >= 0
+//@   callsite (*wire.Server).serve [own-connection] {C15} $conn == conn && $srv == srv
+//@   modifies ServeGhosts(), SharedServer(srv)
 //@ func (*Server).ListenAndServe
 //@   skip calls Serve
 //@ func ListenAndServe
